@@ -938,7 +938,8 @@ func (in *inst) sendStmt(s *ast.SendStmt) ast.Stmt {
 	}
 	stmts = append(stmts,
 		&ast.ExprStmt{X: call(rt("BeforeSend"), site, ct)},
-		&ast.SendStmt{Chan: ct, Value: val})
+		&ast.SendStmt{Chan: ct, Value: val},
+		&ast.ExprStmt{X: call(rt("AfterSend"), site)})
 	return &ast.BlockStmt{List: stmts}
 }
 
@@ -1016,9 +1017,13 @@ func (in *inst) selectStmt(s *ast.SelectStmt) ast.Stmt {
 			comm = c
 			cases = append(cases, &ast.CompositeLit{Type: rt("Case"), Elts: []ast.Expr{&ast.KeyValueExpr{Key: ast.NewIdent("Ch"), Value: ct}}})
 		}
+		body := []ast.Stmt{comm}
+		if _, isSend := comm.(*ast.SendStmt); isSend {
+			body = append(body, &ast.ExprStmt{X: call(rt("AfterSend"), site)})
+		}
 		sw.Body.List = append(sw.Body.List, &ast.CaseClause{
 			List: []ast.Expr{&ast.BasicLit{Kind: token.INT, Value: strconv.Itoa(idx)}},
-			Body: append([]ast.Stmt{comm}, cc.Body...)})
+			Body: append(body, cc.Body...)})
 		idx++
 	}
 	if len(lhs) > 0 {
